@@ -1,0 +1,61 @@
+/*
+ * Copyright Cedar Contributors
+ *
+ * Licensed under the Apache License, Version 2.0 (the "License");
+ * you may not use this file except in compliance with the License.
+ * You may obtain a copy of the License at
+ *
+ *      https://www.apache.org/licenses/LICENSE-2.0
+ *
+ * Unless required by applicable law or agreed to in writing, software
+ * distributed under the License is distributed on an "AS IS" BASIS,
+ * WITHOUT WARRANTIES OR CONDITIONS OF ANY KIND, either express or implied.
+ * See the License for the specific language governing permissions and
+ * limitations under the License.
+ */
+
+//! Observation hooks for external runtime monitors (feature `verif-hooks`,
+//! off by default). Records which sub-expressions the evaluator actually
+//! evaluated and what each produced. Purely additive: nothing in this module
+//! is reachable unless the feature is enabled and a trace has been started on
+//! the current thread.
+
+use crate::ast::{Expr, PartialValue};
+use crate::evaluator::EvaluationError;
+use std::cell::RefCell;
+
+/// One evaluation step observed in `Evaluator::partial_interpret`
+#[derive(Debug, Clone)]
+pub struct EvalEvent {
+    /// Address of the `&Expr` node that was evaluated (identifies the node
+    /// within the tree the caller passed to the evaluator)
+    pub node: usize,
+    /// What evaluating that node produced
+    pub outcome: Result<PartialValue, EvaluationError>,
+}
+
+thread_local! {
+    static TRACE: RefCell<Option<Vec<EvalEvent>>> = const { RefCell::new(None) };
+}
+
+/// Start recording evaluation events on this thread (discarding any trace in progress)
+pub fn start_trace() {
+    TRACE.with(|t| *t.borrow_mut() = Some(Vec::new()));
+}
+
+/// Stop recording and return the events recorded since `start_trace()`
+pub fn take_trace() -> Vec<EvalEvent> {
+    TRACE.with(|t| t.borrow_mut().take()).unwrap_or_default()
+}
+
+/// Called by the evaluator after each node is evaluated
+pub(crate) fn on_eval(expr: &Expr, res: &Result<PartialValue, EvaluationError>) {
+    TRACE.with(|t| {
+        if let Some(v) = t.borrow_mut().as_mut() {
+            v.push(EvalEvent {
+                node: std::ptr::from_ref(expr) as usize,
+                outcome: res.clone(),
+            });
+        }
+    });
+}
